@@ -276,10 +276,12 @@ COQ_TYPE = {"pure": "pure_rec", "segment": "seg_rec", "binary": "bin_rec", "bina
 # IdealGas::ln_lambda3; constants of src/ideal_gas/{dippr,joback}.rs as exact rationals
 IG_GRID = [200, 300, 450, 700, 1000]
 IG_GRID_COQ = "[" + "; ".join("(%d # 1)%%Q" % t for t in IG_GRID) + "]"
+IG_CMP = [200, 450, 1000]     # temperatures at which the exact ln Lambda^3 / c_p are printed for the comparison
+IG_CMP_COQ = "[" + "; ".join("(%d # 1)%%Q" % t for t in IG_CMP) + "]"
 DIPPR_R = "(831446261815324 # 100000000000)%Q"      # 8.31446261815324 * 1000
 IG_T0 = "(29815 # 100)%Q"                           # 298.15
 JOBACK_R = "((6022140857 # 1000000000) * (138064852 # 100000000))%Q"   # 6.022140857 * 1.38064852
-QP = "(fun x : Q => (Qnum x, Zpos (Qden x)))"   # unreduced: Z.gcd on 400-digit numbers is slow in the VM; python reduces
+QP = "(fun x : Q => (Qnum x, Zpos (Qden x)))"
 HEAD = ("From Coq Require Import List String ZArith QArith.\nFrom FeosVerif Require Import RecordsC15 IdealGasC15.\n"
         "Import ListNotations.\nOpen Scope string_scope.\nOpen Scope Z_scope.\n")
 
@@ -403,9 +405,9 @@ def generate(params_dir, outdir, seg_exceptions=None, kind_exceptions=None):
             mod = "P_" + modname(rel)
             t = HEAD + req([D(rel)]) + "Definition data := %s.data.\n" % D(rel)
             if kind == "pure:dippr":
-                t += "Definition grid : list Q := %s.\n" % IG_GRID_COQ
-                t += ('Eval vm_compute in ("IG", %s, map (fun r => let cs := dippr_coefs r in (p_name r, %s (ig_log %s cs), '
-                      'map (fun t => (%s (ig_rat %s %s cs t), %s (cp cs t))) grid)) data).\n'
+                t += "Definition grid : list Q := %s.\nDefinition cmp_grid : list Q := %s.\n" % (IG_GRID_COQ, IG_CMP_COQ)
+                t += ('Eval vm_compute in ("IG", %s, map (fun r => let cs := dippr_coefs r in (p_name r, %s (Qred (ig_log %s cs)), '
+                      'map (fun t => (%s (ig_ratR %s %s cs t), %s (cpR cs t))) cmp_grid)) data).\n'
                       % (cstr(rel), QP, DIPPR_R, QP, DIPPR_R, IG_T0, QP))
             t += 'Eval vm_compute in ("COUNT", %s, List.length data).\n' % cstr(rel)
             t += 'Eval vm_compute in ("BADREC", %s, map (fun r => (p_name r, p_mw r, field "m" (p_fields r), field "sigma" (p_fields r), field "epsilon_k" (p_fields r))) (filter (fun r => negb (%s r)) data)).\n' % (cstr(rel), okb)
@@ -546,9 +548,9 @@ def generate(params_dir, outdir, seg_exceptions=None, kind_exceptions=None):
     if GC_SUBSTANCES in listing and JOBACK_TABLE in listing:
         mod = "J_" + modname(JOBACK_TABLE)
         t = HEAD + req([D(GC_SUBSTANCES), D(JOBACK_TABLE)]) + "Definition chems := %s.data.\nDefinition table := %s.data.\n" % (D(GC_SUBSTANCES), D(JOBACK_TABLE))
-        t += "Definition grid : list Q := %s.\n" % IG_GRID_COQ
+        t += "Definition grid : list Q := %s.\nDefinition cmp_grid : list Q := %s.\n" % (IG_GRID_COQ, IG_CMP_COQ)
         t += ('Eval vm_compute in ("IGJ", %s, map (fun c => (c_name c, match joback_coefs table c with\n'
-              '  | Some cs => Some (map %s cs, %s (ig_log %s cs), map (fun t => (%s (ig_rat %s %s cs t), %s (cp cs t))) grid)\n'
+              '  | Some cs => Some (map (fun x => %s (Qred x)) cs, %s (Qred (ig_log %s cs)), map (fun t => (%s (ig_ratR %s %s cs t), %s (cpR cs t))) cmp_grid)\n'
               '  | None => None end)) chems).\n' % (cstr(JOBACK_TABLE), QP, QP, JOBACK_R, QP, JOBACK_R, IG_T0, QP))
         t += 'Eval vm_compute in ("BADREC", %s, map c_name (filter (fun c => negb (joback_gc_okb grid table c)) chems)).\n' % cstr(JOBACK_TABLE)
         t += "Lemma check : forallb (joback_gc_okb grid table) chems = true.\nProof. vm_compute. reflexivity. Qed.\n"
